@@ -435,6 +435,14 @@ func checkC08(c AxisCase) (bool, *Violation) {
 				axisLabel(a, dz), derefInt(a.Note), derefInt(a.NoteNeg), ws.Step.Val, ratF(kv), ws.Pre, i)
 		}
 		ambiguous := nearRat(kv, 0.5) || nearRat(kv, -0.5) || nearRat(kv, 0.49) || nearRat(kv, -0.49)
+		// "reaches half travel" includes half travel itself. The position is decided in floating point, which is why positions
+		// within 1e-9 of a threshold are left open - except where the arithmetic is exact: without a deadzone the chain is one
+		// division whose exact quotient (a quarter, a half, three quarters) is representable, followed by *2-1 and a sign
+		// change, all exact. There a position of exactly half travel has to sound its note.
+		if dz == 0 && new(big.Rat).Abs(kv).Cmp(ratHalf) == 0 {
+			ambiguous = false
+			classify("exactly half travel on an axis without deadzone (decidable)")
+		}
 		// classify outputs
 		var ons, offs [][]byte
 		for _, msg := range ws.Res.Out {
